@@ -27,9 +27,10 @@ class C09(Prop):
     stages = ('S1', 'S25', 'S6')
     rule = 'runs of length 1..400 of every run character in its direction at offsets (quick: all lengths 1..64 plus a sample up to 400), and random grids over the full alphabet with all pairs of plain line elements examined; non-trivial when the output has at least one line element'
     level_text = ('Theorems C09_no_two_mergeable_lines (at the fixpoint of the merge loop no line can merge with a later one, for every span), C09_can_merge_means_collinear_and_touching, '
-                  'C09_run_of_any_length_is_one_line (a chain of n >= 1 collinear touching unit segments in any of the four directions merges to the one line from first to last point, for every n, by induction), C09_dashed_if_any_part_dashed. '
-                  'The passage from run characters to unit segments (tables) and lines of different spans are decided by correspondence and oracle.')
-    level_note = 'float cross product: exact on the grid below 512 columns / 512 rows by Float/FloatExact.v (Flocq; standard real-number axioms); partial: whole-drawing statement (tables -> unit segments, cross-span lines) by correspondence plus oracle; exact integer geometry in the model, f32 in the code'
+                  'C09_run_of_any_length_is_one_line (a chain of n >= 1 collinear touching unit segments in any of the four directions merges to the one line from first to last point, for every n, by induction), C09_dashed_if_any_part_dashed, '
+                  'C09_runs_from_characters (from the characters: a straight run of 1..40 cells of - _ ~ = | : ! \\ / or the box-drawing bars is recognised by the whole recognition of the model as exactly one line spanning the run - two for = -, dashed for ~ : !, and nothing else; sweep inside Coq on the regenerated tables) and C09_runs_anywhere_in_context (at any offset, next to anything that does not touch the run; by C06 and C10). '
+                  'Longer runs through the tables and lines of different groups of cells are decided by correspondence and oracle.')
+    level_note = 'float cross product: exact on the grid below 512 columns / 512 rows by Float/FloatExact.v (Flocq; standard real-number axioms); partial: runs longer than 40 cells through the tables and cross-span lines by correspondence plus oracle; exact integer geometry in the model, f32 in the code'
     def make(self, gen, text, meta=None):
         return Item(gen, {'main': Run(text, '', 'settings')}, dict(meta or {}, text=text), lambda t: self.make(gen, t))
     def items(self, rng, tier):
